@@ -37,7 +37,7 @@ func Main(args []string) int {
 		return 64
 	}
 	label := args[0]
-	var salt, failIf, sleepIf, omit, omitIf, touch string
+	var salt, failIf, sleepIf, omit, omitIf, touch, rm, rmIf string
 	fail, sleepMs := 0, 0
 	for i := 1; i < len(args); i++ {
 		next := func() string {
@@ -64,6 +64,10 @@ func Main(args []string) int {
 			omitIf = next()
 		case "--touch":
 			touch = next()
+		case "--rm":
+			rm = next()
+		case "--rmif":
+			rmIf = next()
 		}
 	}
 	build := os.Getenv("VBUILD")
@@ -134,7 +138,14 @@ func Main(args []string) int {
 				_ = os.RemoveAll(spec.OutAbs(root, t.Pkg, o.Path))
 				continue
 			}
-			if err := outs[o.Path].Materialize(spec.OutAbs(root, t.Pkg, o.Path)); err != nil {
+			// two ways real commands write: replace the output (unlink + create) or overwrite
+			// it in place through the existing inode (`cmd > out`); which one is a function
+			// of the state, so that a history exercises both
+			write := outs[o.Path].Materialize
+			if h := spec.H("style", label, salt, o.Path, in, dep); h[0]%2 == 0 {
+				write = outs[o.Path].MaterializeInPlace
+			}
+			if err := write(spec.OutAbs(root, t.Pkg, o.Path)); err != nil {
 				fmt.Fprintln(os.Stderr, "act: write:", err)
 				appendTrace(fmt.Sprintf("X %s %s %s write-error", build, label, nonce))
 				return 68
@@ -144,6 +155,9 @@ func Main(args []string) int {
 	if touch != "" {
 		_ = os.MkdirAll(filepath.Dir(filepath.Join(root, touch)), 0755)
 		_ = os.WriteFile(filepath.Join(root, touch), []byte("ok\n"), 0644)
+	}
+	if rm != "" && rmIf != "" && exists(filepath.Join(root, rmIf)) {
+		_ = os.Remove(filepath.Join(root, rm)) // the command itself destroys a checked condition
 	}
 	if fail != 0 {
 		appendTrace(fmt.Sprintf("F %s %s %s rc=%d", build, label, nonce, fail))
